@@ -138,7 +138,9 @@ class SatCacheMixin:
             raise UnsatError("cached unsat")
         try:
             r = super().solution(e, v, extra_constraints=extra_constraints, exact=exact)
-            self._cached_satness = True
+            if r:
+                # only a positive answer exhibits a model; `False` is also what an unsatisfiable solver says
+                self._cached_satness = True
             return r
         except UnsatError:
             if len(extra_constraints) == 0:
